@@ -47,6 +47,7 @@ Proof.
   - intros _ H0. rewrite Htot in H0. lia.
   - intros c0 p0. rewrite HT. intros El. exfalso.
     destruct (Nat.eqb_spec c0 t) as [->|_]; cbn [lend x'] in El; exact (borrower_no_excl s _ p0 t I El Hex).
+  - apply J11_upd; auto.
 Qed.
 
 (* ---------- AClone ---------- *)
@@ -98,4 +99,7 @@ Proof.
     apply (J8 s I u).
   - intros _ H0. lia.
   - apply J10_upd; auto. intros (c0 & Hc0). cbn [refs excl x']. split; [lia|reflexivity].
+  - apply J11_cons; auto.
+    + unfold hb. cbn [wt we m clk x']. lia.
+    + intros u. cbn [val m]. pose proof (total_ge (upd (ths s) t x') u) as Hg. unfold T, getth. cbn [ths]. lia.
 Qed.
